@@ -2,9 +2,99 @@
 use crate::engine::Suite;
 
 pub fn suites() -> Vec<Suite> {
-    vec![super::guards::suite_c15()]
+    let mut v = vec![super::guards::suite_c15()];
+    v.extend(sys_suites());
+    v
 }
 pub const RULE: &str = "function level: case = (d0, d1, r0, r1, tolerance?) with log-uniform 128-bit amounts (2.5% zeros for the abort paths), tolerances from [0,1] with up to 18 digits, above 1 and absent, near-limit constructions d_i = floor(r_i*d_j/(r_j*(1-t))) + {-2..2} on either side, and balanced deposits perturbed by 0..2 units; non-trivial = the guard gave a verdict AND (deposit unbalanced OR decided within 10^-12 relative distance of the limit); distinct = hash of the five inputs. system level: see suite descriptions";
 pub const ASSUMPTIONS: &[&str] = &[
     "aborts (zero deposit or reserve in a ratio) are rejections, not guard verdicts",
 ];
+
+// ---- system level --------------------------------------------------------------------------------
+use crate::engine::*;
+use crate::hist::*;
+use crate::props::guards::{c15_judge, GuardOutcome, SlipCase};
+use crate::sys::*;
+use crate::world::*;
+use haloswap::pair::ExecuteMsg as PairExec;
+
+#[derive(Default)]
+pub struct C15Oracle {
+    nontrivial: u64,
+}
+
+impl StepOracle for C15Oracle {
+    fn on_step(&mut self, cx: &mut StepCtx, classes: &mut Vec<&'static str>) -> Verdict {
+        let w = &*cx.world;
+        let (pair, assets) = match cx.intent {
+            Intent::Provide { pair, assets, .. } => (*pair, assets),
+            _ => return Verdict::Pass,
+        };
+        let tol = match &cx.rec.step.call {
+            Call::Pair { msg: PairExec::ProvideLiquidity { slippage_tolerance, .. }, .. } => slippage_tolerance.map(|d| d.atomics().u128()),
+            _ => None,
+        };
+        let pr = &w.pairs[pair];
+        let d: Vec<Option<u128>> = (0..2).map(|i| assets.iter().find(|a| a.info == pr.infos[i]).map(|a| a.amount.u128())).collect();
+        let (d0, d1) = match (d[0], d[1]) {
+            (Some(a), Some(b)) => (a, b),
+            _ => return Verdict::Pass,
+        };
+        let (r0, r1, s) = pool_in(w, &cx.rec.before, pair);
+        if tol.is_none() || s == 0 {
+            return Verdict::Pass;
+        }
+        let out = match &cx.rec.outcome {
+            Outcome::Ok { .. } => GuardOutcome::Ok,
+            o if o.err_text().contains("Max slippage assertion") => GuardOutcome::GuardReject,
+            o => GuardOutcome::OtherReject(o.err_text().chars().take(80).collect()),
+        };
+        classes.push(match &out {
+            GuardOutcome::Ok => "w:accepted",
+            GuardOutcome::GuardReject => "w:guard-rejected",
+            GuardOutcome::OtherReject(_) => "w:other-rejection",
+        });
+        classes.push(if pr.infos.iter().any(|i| i.is_native_token()) { "k:has-native" } else { "k:cw20-only" });
+        // judged on the PRE-transaction reserves: a guard evaluated on reserves that already include
+        // the caller's native deposit shows up here
+        let k = SlipCase { d: [d0, d1], r: [r0, r1], tol, class: "g:world" };
+        match c15_judge(&k, &out) {
+            Ok(near) => {
+                let unbalanced = crate::nat::n(d0).mul(&crate::nat::n(r1)) != crate::nat::n(d1).mul(&crate::nat::n(r0));
+                if !matches!(out, GuardOutcome::OtherReject(_)) && (near || unbalanced) {
+                    self.nontrivial += 1;
+                }
+                if near {
+                    classes.push("n:near-limit");
+                }
+                Verdict::Pass
+            }
+            Err(m) => Verdict::Fail(format!("step {}: provision into pair{} with pre-transaction reserves ({}, {}): {}", cx.index, pair, r0, r1, m)),
+        }
+    }
+    fn nontrivial(&self) -> bool {
+        self.nontrivial > 0
+    }
+}
+
+fn run_sys(t: &Tape, want_desc: bool) -> CaseResult {
+    let mut o = C15Oracle::default();
+    let h = run_history(t, &SLIPPAGE, 16, &mut o, want_desc);
+    hist_case(t, h)
+}
+
+pub fn sys_suites() -> Vec<Suite> {
+    vec![Suite {
+        name: "world_tolerant_provisions",
+        about: "deposits are balanced against the reserves of an earlier state and provided later with a tolerance, after other actors' swaps; the executed verdict is judged by the same implications on the PRE-transaction reserves",
+        head_len: HEAD_LEN,
+        op_len: OP_LEN,
+        max_ops: 30,
+        quick_cases: 4_000,
+        thorough_cases: 300_000,
+        run: run_sys,
+        direct: Some(direct_with::<C15Oracle>),
+        must_hit: &["w:accepted", "w:guard-rejected", "k:has-native", "k:cw20-only", "n:near-limit"],
+    }]
+}
